@@ -288,6 +288,17 @@ class Env:
             return tgt.do_nothing()
         if m == "do_update":
             return tgt.do_update(c["col"], self.term(c["val"]) if c.get("val") else None)
+        if m == "dialect_own":
+            # the clause only this dialect's builder class has (nothing where the class adds none)
+            if callable(getattr(type(tgt), "modifier", None)):
+                return tgt.modifier("SQL_CALC_FOUND_ROWS").modifier("HIGH_PRIORITY")
+            if callable(getattr(type(tgt), "distinct_on", None)):
+                return tgt.distinct_on(self.src["T1"].a, "c")
+            if callable(getattr(type(tgt), "top", None)):
+                return tgt.top(5)
+            return tgt
+        if m == "hints":
+            return tgt.force_index("ix1").use_index("ix2").for_update(nowait=True).with_totals()
         if m == "with_":
             return tgt.with_(self.Q.from_(self.P.Table("t7")).select("a"), c["name"])
         raise core.MachineryError("call " + m)
